@@ -37,6 +37,8 @@ def case_class(c):
         return '%s|delta=%s|off=%s' % (c['facet'], c['delta'], c['off'])
     if g == 'lex':
         return '%s|text=%s' % (c['ty'], c['text'])
+    if g == 'objarr':
+        return 'n=%s,%s,missing=%s' % (c['n'], c['idx'], c['missing'])
     return '?'
 
 
